@@ -38,12 +38,91 @@ ITEM_TIMEOUT = 20
 # class of a listed sub-edit -> tag of the summary (ApiSpec.tag)
 TAGS = {'Match': 'TMatch', 'Replace': 'TReplace', 'Remove': 'TRemove', 'Insert': 'TInsert',
         'KeyValuePairEdit': 'TKvp', 'FixedLengthSequenceEdit': 'TFixed', 'EditDistance': 'TEditDist',
-        'StringEdit': 'TString'}
+        'StringEdit': 'TString', 'MultiSetEdit': 'TMultiSet', 'FixedKeyDictNodeEdit': 'TFixedDict'}
 
 
 # ------------------------------------------------------------------ implementation side (worker)
 
 DIRTY = [False]
+MATCHERS = []          # the WeightedBipartiteMatcher objects created since the last reset (one run)
+_INSTALLED = [False]
+
+
+def _install_oracle_probe():
+    """Records, on every WeightedBipartiteMatcher, the answers of the code the model treats as an oracle: the number of
+    tighten_bounds() calls bounds.make_distinct makes on each edge (it walks an interval tree whose order the model does
+    not follow) and the assignment the solver returns.  Observation only: the wrapped methods run unchanged."""
+    if _INSTALLED[0]:
+        return
+    _INSTALLED[0] = True
+    from graphtage.matching import WeightedBipartiteMatcher as WBM
+    orig_init = WBM.__init__
+    orig_med = WBM._make_edges_distinct
+    orig_matching = WBM.matching.fget
+
+    def __init__(self, *args, **kwargs):
+        orig_init(self, *args, **kwargs)
+        MATCHERS.append(self)
+
+    def _make_edges_distinct(self):
+        if self._edges_are_distinct:
+            return orig_med(self)
+        edges = self.edges
+        counts = [[0] * len(row) for row in edges]
+        patched = []
+        for i, row in enumerate(edges):
+            for j, e in enumerate(row):
+                if e is None:
+                    continue
+
+                def counting(_e=e, _i=i, _j=j, _orig=e.tighten_bounds):
+                    counts[_i][_j] += 1
+                    return _orig()
+                try:
+                    e.tighten_bounds = counting
+                    patched.append(e)
+                except AttributeError:
+                    pass
+        try:
+            return orig_med(self)
+        finally:
+            for e in patched:
+                try:
+                    del e.tighten_bounds
+                except AttributeError:
+                    pass
+            self._c05_counts = counts
+
+    def matching(self):
+        fresh = self._match is None
+        r = orig_matching(self)
+        if fresh and self.from_nodes and self.to_nodes:
+            self._c05_asg = [[self.from_node_indexes[f], self.to_node_indexes[t]] for f, (t, _) in r.items()]
+        return r
+    WBM.__init__ = __init__
+    WBM._make_edges_distinct = _make_edges_distinct
+    WBM.matching = property(matching)
+
+
+def _oracle_table():
+    """(from_nodes, to_nodes) -> (make_distinct counts, assignment) for the matchers of the run; None if a key received two
+    different answers or a node cannot be serialised"""
+    table, seen = [], {}
+    try:
+        for m in MATCHERS:
+            if not hasattr(m, '_c05_counts') and not hasattr(m, '_c05_asg'):
+                continue
+            key = json.dumps([[sl.ser_tree(x) for x in m.from_nodes], [sl.ser_tree(x) for x in m.to_nodes]])
+            ans = [getattr(m, '_c05_counts', []), getattr(m, '_c05_asg', [])]
+            if key in seen:
+                if seen[key] != ans:
+                    return None
+                continue
+            seen[key] = ans
+            table.append([json.loads(key), ans])
+    except ValueError:
+        return None
+    return table
 
 
 def _set_quiet(q):
@@ -113,6 +192,8 @@ def _run_history(item, quiet, hist):
     """fresh trees, fresh edit, the history, then completion and the script.  Calls that address a sub-edit that was
     not listed are not performed; `eff` is the history that was."""
     _set_quiet(quiet)
+    _install_oracle_probe()
+    del MATCHERS[:]
     a, b, _ = _build(item)
     e = a.edits(b)
     listings = {}
@@ -145,7 +226,10 @@ def _run_history(item, quiet, hist):
         except Exception as ex:  # noqa
             raised = _trace_of(ex)
             raised['stage'] = 'completion'
-    return {'quiet': bool(quiet), 'outs': outs, 'eff': eff, 'final': final, 'raised': raised, 'root': type(e).__name__}
+    orc = None if item.get('ext') else _oracle_table()
+    del MATCHERS[:]
+    return {'quiet': bool(quiet), 'outs': outs, 'eff': eff, 'final': final, 'raised': raised, 'root': type(e).__name__,
+            'orc': orc}
 
 
 def _views(item, quiet):
@@ -196,6 +280,17 @@ def impl_history(item):
                 return k
         scripts.append((key, scr))
         return len(scripts) - 1
+    orcs = []
+
+    def intern_orc(o):
+        if o is None:
+            return None
+        key = json.dumps(o)
+        for k, o0 in enumerate(orcs):
+            if o0[0] == key:
+                return k
+        orcs.append((key, o))
+        return len(orcs) - 1
     ta = tb = None
     canon = None
     out_items = []
@@ -210,6 +305,7 @@ def impl_history(item):
             ta = tb = None
         canon = _guarded(lambda: _run_history(item, True, []), item.get('timeout', ITEM_TIMEOUT))
         canon['final'] = intern(canon['final'])
+        canon['orc'] = intern_orc(canon['orc'])
         bad = canon['raised'] is not None
         quiets = item.get('quiets', [True, False])
         if not bad and not item.get('ext'):
@@ -232,6 +328,7 @@ def impl_history(item):
                     eff = [r['eff'][k] for k in keep]
                     r['outs'] = [r['outs'][k] for k in keep]
                 r['final'] = intern(r['final'])
+                r['orc'] = intern_orc(r['orc'])
                 del r['eff']
                 runs.append(r)
                 if r['raised'] is not None:
@@ -249,8 +346,178 @@ def impl_history(item):
             pass
     if bad:
         DIRTY[0] = True
-    return {'a': ta, 'b': tb, 'canon': canon, 'scripts': [s0[1] for s0 in scripts], 'items': out_items, 'views': views,
+    return {'a': ta, 'b': tb, 'canon': canon, 'scripts': [s0[1] for s0 in scripts], 'orcs': [o0[1] for o0 in orcs],
+            'items': out_items, 'views': views,
             'timeout': timeout, 'not_run': max(0, len(item['hists']) - len(out_items))}
+
+
+# A pristine interpreter that has imported graphtage and the harness but has never built a tree or driven an edit; for
+# every request it forks, and the CHILD runs one history on a fresh edit and exits.  The child's process-global state
+# (caches, memos, printers, module attributes) is that of an interpreter straight after import: whatever a drive leaves
+# behind dies with the child.  (Starting a new interpreter per run gives the same state and costs 1.3 s of imports each.)
+ZYGOTE_CODE = ('import sys, os, json\n'
+               'sys.setrecursionlimit(10000)\n'
+               'from harness import pC05, scriptlib as sl\n'
+               'import graphtage, graphtage.json, graphtage.printer, graphtage.tree, graphtage.levenshtein\n'
+               'import graphtage.multiset, graphtage.matching, graphtage.bounds, graphtage.edits, graphtage.sequences\n'
+               'out = sys.stdout\n'
+               'out.write("@@READY\\n"); out.flush()\n'
+               'for line in sys.stdin:\n'
+               '    line = line.strip()\n'
+               '    if not line:\n'
+               '        continue\n'
+               '    req = json.loads(line)\n'
+               '    pid = os.fork()\n'
+               '    if pid == 0:\n'
+               '        try:\n'
+               '            sys.stderr = open(os.devnull, "w")\n'
+               '            try:\n'
+               '                r = pC05._guarded(lambda: pC05._run_history(req["item"], req["quiet"], req["hist"]), req["limit"])\n'
+               '            except sl.ItemTimeout:\n'
+               '                r = {"timeout": True}\n'
+               '            out.write("@@F " + json.dumps(r) + "\\n"); out.flush()\n'
+               '        finally:\n'
+               '            os._exit(0)\n'
+               '    os.waitpid(pid, 0)\n'
+               '    out.write("@@E\\n"); out.flush()\n')
+ZYGOTE = [None]
+
+
+def _zygote():
+    import subprocess
+    z = ZYGOTE[0]
+    if z is not None and z.poll() is None:
+        return z
+    z = subprocess.Popen([sys.executable, '-u', '-c', ZYGOTE_CODE], stdin=subprocess.PIPE, stdout=subprocess.PIPE,
+                         stderr=subprocess.DEVNULL, text=True, bufsize=1, cwd=common.VERIF)
+    line = z.stdout.readline()
+    if not line.startswith('@@READY'):
+        z.kill()
+        raise RuntimeError('the pristine interpreter did not start')
+    ZYGOTE[0] = z
+    return z
+
+
+def _fresh_run(item, quiet, hist):
+    """one history on a fresh edit in a fresh process (a fork of the pristine interpreter; same graphtage tree and
+    PYTHONHASHSEED as this worker): nothing an earlier drive left in process-global state can be seen"""
+    limit = item.get('timeout', ITEM_TIMEOUT)
+    res = None
+    try:
+        z = _zygote()
+        z.stdin.write(json.dumps({'item': item, 'quiet': quiet, 'hist': hist, 'limit': limit}) + '\n')
+        z.stdin.flush()
+        while True:
+            l = z.stdout.readline()
+            if not l:
+                break
+            if l.startswith('@@F '):
+                res = json.loads(l[4:])
+            elif l.startswith('@@E'):
+                break
+    except (OSError, RuntimeError, ValueError):
+        res = None
+    if res is not None:
+        return res
+    if ZYGOTE[0] is not None:
+        try:
+            ZYGOTE[0].kill()
+        except OSError:
+            pass
+        ZYGOTE[0] = None
+    return {'quiet': bool(quiet), 'outs': [], 'eff': [list(c) for c in hist], 'final': None, 'root': None, 'orc': None,
+            'raised': {'exc': 'FreshProcessDied', 'msg': 'the forked child reported nothing', 'where': []}}
+
+
+def impl_history_fresh(item):
+    """item as for impl_history.  The canonical drive and every history (under every quiet setting) run in fresh
+    interpreters, one per run; then the same histories run once more one after another in THIS (long-lived) worker
+    process, which has driven other pairs before.  All runs of a history - fresh and same-process - are reported as runs of
+    that history next to the fresh canonical drive: holds_C05 asks all of them for the canonical cost and script, so a result
+    that depends on what the process did before is a failure of the property like any other history dependence."""
+    if DIRTY[0]:
+        os._exit(3)
+    scripts, orcs = [], []
+
+    def intern_in(tbl, v):
+        if v is None:
+            return None
+        key = json.dumps(v)
+        for k, v0 in enumerate(tbl):
+            if v0[0] == key:
+                return k
+        tbl.append((key, v))
+        return len(tbl) - 1
+    quiets = item.get('quiets', [True, False])
+    hists = item['hists'] if [] in item['hists'] else [[]] + list(item['hists'])
+    timeout = False
+    bad = False
+    canon = _fresh_run(item, True, [])
+    out_items = []
+    if canon.get('timeout'):
+        timeout, canon = True, None
+    else:
+        canon.pop('eff', None)
+        canon['final'] = intern_in(scripts, canon['final'])
+        canon['orc'] = intern_in(orcs, canon['orc'])
+        canon['proc'] = 'fresh'
+        bad = canon['raised'] is not None
+    effs = []
+    for hist in hists:
+        if bad or timeout:
+            break
+        runs = []
+        eff = None
+        for q in quiets:
+            r = _fresh_run(item, q, hist if eff is None else eff)
+            if r.get('timeout'):
+                timeout = True
+                break
+            if eff is None:
+                keep = [k for k, o in enumerate(r['outs']) if o != ['nosub']]
+                eff = [r['eff'][k] for k in keep]
+                r['outs'] = [r['outs'][k] for k in keep]
+            r.pop('eff', None)
+            r['final'] = intern_in(scripts, r['final'])
+            r['orc'] = intern_in(orcs, r['orc'])
+            r['proc'] = 'fresh'
+            runs.append(r)
+            if r['raised'] is not None:
+                bad = True
+                break
+        if eff is not None:
+            effs.append(eff)
+            out_items.append({'hist': eff, 'runs': runs})
+    views = []
+    ta = tb = None
+    if not bad and not timeout:
+        # the same histories, one after another, in this process
+        same = impl_history(dict(item, hists=effs))
+        ta, tb = same['a'], same['b']
+        views = same['views']
+        timeout = timeout or same['timeout']
+
+        def conv(r):
+            r = dict(r)
+            r['final'] = intern_in(scripts, same['scripts'][r['final']]) if r['final'] is not None else None
+            r['orc'] = intern_in(orcs, same['orcs'][r['orc']]) if r.get('orc') is not None else None
+            r['proc'] = 'same-process'
+            return r
+        by_hist = {json.dumps(hi['hist']): hi['runs'] for hi in same['items']}
+        for k, oi in enumerate(out_items):
+            oi['runs'] += [conv(r) for r in by_hist.get(json.dumps(oi['hist']), [])]
+            if k == 0 and same['canon'] is not None and oi['hist'] == []:
+                c = conv(same['canon'])
+                c['outs'] = []
+                oi['runs'].append(c)
+    else:
+        try:
+            a, b, _ = _build(item)
+            ta, tb = sl.ser_tree(a), sl.ser_tree(b)
+        except Exception:  # noqa
+            ta = tb = None
+    return {'a': ta, 'b': tb, 'canon': canon, 'scripts': [s0[1] for s0 in scripts], 'orcs': [o0[1] for o0 in orcs],
+            'items': out_items, 'views': views, 'timeout': timeout, 'not_run': max(0, len(hists) - len(out_items)), 'fresh': True}
 
 
 class _NoClose(io.StringIO):
@@ -304,6 +571,7 @@ def impl_cli(item):
         raised = None
         status = None
         _set_quiet('--no-status' in extra)      # the module-level printers of tree / levenshtein never see --no-status
+        del MATCHERS[:]
         try:
             try:
                 status = gm.main(['graphtage'] + flags + list(extra) + [pa, pb])
@@ -321,7 +589,9 @@ def impl_cli(item):
                 final = sl.ser_edit(got[0])
             except Exception as ex:  # noqa
                 raised = {'exc': type(ex).__name__, 'msg': str(ex)[:200], 'stage': 'serialise'}
-        runs.append({'quiet': '--no-status' in extra, 'argv': list(extra), 'outs': [], 'final': final, 'raised': raised,
+        orc_run = _oracle_table()
+        del MATCHERS[:]
+        runs.append({'quiet': '--no-status' in extra, 'argv': list(extra), 'outs': [], 'final': final, 'raised': raised, 'orc': orc_run,
                      'status': status, 'ansi': '\x1b[' in out.getvalue(), 'root': type(got[0]).__name__ if got else None})
         if raised is not None:
             DIRTY[0] = True
@@ -335,13 +605,23 @@ def impl_cli(item):
         if scr not in scripts:
             scripts.append(scr)
         return scripts.index(scr)
+    orcs = []
+
+    def intern_orc(o):
+        if o is None:
+            return None
+        if o not in orcs:
+            orcs.append(o)
+        return orcs.index(o)
     canon['final'] = intern(canon['final'])
+    canon['orc'] = intern_orc(canon.get('orc'))
     canon.pop('eff', None)
     for r in runs:
         r['final'] = intern(r['final'])
+        r['orc'] = intern_orc(r.get('orc'))
     views = [] if DIRTY[0] else [_views(item, True), _views(item, False)]
     _set_quiet(True)
-    return {'a': ta, 'b': tb, 'canon': canon, 'scripts': scripts, 'items': [{'hist': [], 'runs': runs}], 'views': views,
+    return {'a': ta, 'b': tb, 'canon': canon, 'scripts': scripts, 'orcs': orcs, 'items': [{'hist': [], 'runs': runs}], 'views': views,
             'timeout': False, 'not_run': 0, 'cli': True}
 
 
@@ -391,7 +671,20 @@ def onat(i):
 
 
 def run_term(r):
-    return f'Build_prun {sl.b(r["quiet"])} [{";".join(out_term(o) for o in r["outs"])}] {onat(r["final"])}'
+    return f'Build_prun {sl.b(r["quiet"])} {onat(r.get("orc"))} [{";".join(out_term(o) for o in r["outs"])}] {onat(r["final"])}'
+
+
+def nat_list(l):
+    return '[' + ';'.join(f'{int(x)}%nat' for x in l) + ']'
+
+
+def orc_term(table):
+    ents = []
+    for (fs, ts), (cnt, asg) in table:
+        k = f'([{";".join(sl.tree_term(x) for x in fs)}], [{";".join(sl.tree_term(x) for x in ts)}])'
+        a = f'([{";".join(nat_list(row) for row in cnt)}], [{";".join(f"({int(i)}%nat, {int(j)}%nat)" for i, j in asg)}])'
+        ents.append(f'({k}, {a})')
+    return '[' + ';'.join(ents) + ']'
 
 
 def pcase_term(o):
@@ -400,9 +693,11 @@ def pcase_term(o):
     items = ';\n'.join(f'([{";".join(call_term(c) for c in it["hist"])}], [{";".join(run_term(r) for r in it["runs"])}])'
                        for it in o['items'])
     canon = o['canon']['final'] if o['canon'] else None
+    canon_orc = o['canon'].get('orc') if o['canon'] else None
+    orcs = ';\n'.join(orc_term(t) for t in o.get('orcs', []))
     views = ';'.join(f'Build_view {sl.b(w["quiet"])} {sl.z(w["flat"])} {sl.z(w["edited"])}' for w in o.get('views', []))
-    return (f'(Build_pcase {sl.tree_term(a)} {sl.tree_term(b)} [{";".join(sl.edit_term(s) for s in o["scripts"])}] '
-            f'{onat(canon)} {sl.b(o["timeout"])} [{views}] [{items}])')
+    return (f'(Build_pcase {sl.tree_term(a)} {sl.tree_term(b)} [{";".join(sl.edit_term(s) for s in o["scripts"])}] [{orcs}] '
+            f'{onat(canon)} {onat(canon_orc)} {sl.b(o["timeout"])} [{views}] [{items}])')
 
 
 # ------------------------------------------------------------------ generators
@@ -543,10 +838,60 @@ def gen_renamed_pair(rng):
     return xs, ys
 
 
+# mappings with several keys that are not matched by name and string values drawn from a SMALL pool, so that the same
+# (from-string, to-string) pair occurs in a key-matched pair and in candidate edges of the matcher (or in several edges)
+STRING_POOL = ['abcdefgh', 'qbcdefgh', 'abcdefgz', 'hgfedcba', 'abcdxfgh', 'abzdefgh', 'abcdefghijkl', 'abcd']
+FROM_ONLY_KEYS = ['alpha', 'alphb', 'beta', 'gamma', 'delta']
+TO_ONLY_KEYS = ['alpho', 'alphc', 'betz', 'bety', 'gamme', 'deltz']
+SHARED_KEYS = ['s1', 's2', 's3']
+T = [[], 'tighten']
+FRESH_HISTORIES = [
+    [],                                                                     # the canonical order (refine until complete, then list)
+    [[[], 'edits']],                                                        # list first
+    [T],                                                                    # refine first
+    [T] * 40,                                                               # refine to the end
+    [[[], 'edits']] + [T] * 40,                                             # list, then refine to the end
+    [[[], 'bounds'], [[], 'complete'], [[], 'valid'], [[], 'edits'], [[], 'bounds']] + [T] * 10,
+    [[[], 'nonzero'], [[], 'edits']] + [T] * 5,
+    [T, T, [[], 'bounds'], [[], 'edits']] + [T] * 5,
+]
+
+
+def gen_shared_strings_pair(rng):
+    pool = rng.sample(STRING_POOL, rng.randint(2, 4))
+    a, b = {}, {}
+    keys_a = rng.sample(FROM_ONLY_KEYS, rng.randint(2, 3))
+    keys_b = rng.sample(TO_ONLY_KEYS, rng.randint(2, 3))
+    shared = rng.sample(SHARED_KEYS, rng.randint(1, 2))
+    for k in keys_a + shared:
+        a[k] = rng.choice(pool)
+    for k in keys_b + shared:
+        b[k] = rng.choice(pool)
+    ia, ib = list(a.items()), list(b.items())
+    rng.shuffle(ia)
+    rng.shuffle(ib)
+    return dict(ia), dict(ib)
+
+
+def gen_fresh_items(tier, rng):
+    q = tier == 'quick'
+    items = [dict(it, fresh=True, kind='corpus-fresh',
+                  hists=list(FRESH_HISTORIES) + [h for h in it.get('hists', []) if h not in FRESH_HISTORIES])
+             for it in corpus_items() if it.get('fresh')]
+    for k in range(60 if q else 600):
+        a, b = gen_shared_strings_pair(rng)
+        if rng.random() < 0.2:
+            a, b = [a, 'abcdefgh'], [b]                                   # the mappings as cells of a list edit
+        hists = list(FRESH_HISTORIES) + [rand_history(rng, rng.randint(1, 30)) for _ in range(1 if q else 4)]
+        items.append({'a': a, 'b': b, 'opts': [['auto', 'match'][k % 4 == 3], 'on'], 'hists': hists,
+                      'quiets': [True, False] if k % 4 == 0 else [True], 'fresh': True, 'kind': 'shared-strings'})
+    return items
+
+
 def gen_items(tier, rng):
     from harness import pC04
     q = tier == 'quick'
-    items = corpus_items()
+    items = [it for it in corpus_items() if not it.get('fresh')]
     # (b) exhaustive short histories of root calls on the small pairs
     n_exh = 4 if q else 5
     exh = all_histories(n_exh)
@@ -692,13 +1037,16 @@ def evaluate(run, wd, st, items, tag='cases', func='impl_history'):
     if st['models_ok']:
         header += MODEL_HEADER
         evals += ['bad_cases (fun pc => forallb corr_C05 (expand pc))',
-                  'bad_cases (fun pc => match initA (pc_a pc) (pc_b pc) with Some _ => true | None => false end)']
+                  'bad_cases (fun pc => forallb modelled_C05 (expand pc))',
+                  'bad_cases (fun pc => forallb oracle_stable_C05 (expand pc))']
     terms = [pcase_term(o) for _, o in ok]
     bad, err = eval_sized(wd, tag, header, terms, evals)
     if err:
         run.violation({'kind': 'case-evaluation-failed', 'error': err}, no_input=True)
         return ok, [], [], [], stats
     bad_corr, modelled = (bad[1], bad[2]) if st['models_ok'] else ([], [])
+    stats['oracle_unstable_pairs'] = len(bad[3]) if st['models_ok'] else 0
+    stats['oracle_unstable_first'] = [{k: ok[i][0][k] for k in ('a', 'b', 'opts')} for i in (bad[3][:3] if st['models_ok'] else [])]
     return ok, bad[0], bad_corr, modelled, stats
 
 
@@ -711,19 +1059,33 @@ def failing_histories(wd, st, o, pred, tag):
     return common.parse_nat_list(vals[0])
 
 
+def _script_cost(scr):
+    try:
+        return scr[2] if scr[0] == 'comp' else scr[1]
+    except Exception:  # noqa
+        return None
+
+
 def describe(wd, st, it, o, pred, tag):
     idx = failing_histories(wd, st, o, pred, tag)
     rep = {'input': {'a': it['a'], 'b': it['b'], 'opts': it['opts']}, 'timeout': o['timeout'], 'views_on_fresh_trees': o.get('views'),
            'canonical': {'raised': o['canon']['raised'] if o['canon'] else 'not run',
+                         'final_cost': _script_cost(o['scripts'][o['canon']['final']]) if o['canon'] and o['canon']['final'] is not None else None,
                          'script': o['scripts'][o['canon']['final']] if o['canon'] and o['canon']['final'] is not None else None}}
     if it.get('argvs'):
         rep['input']['argvs'] = it['argvs']
         rep['input']['cli'] = True
+    if it.get('fresh'):
+        rep['input']['fresh'] = True
+        rep['note'] = ('every run marked process=fresh is one history on a fresh edit in a fresh interpreter; process=same-process runs '
+                       'follow one another in one long-lived interpreter; the canonical drive is a fresh interpreter without history')
     shown = []
     for k in (idx if idx else range(min(1, len(o['items'])))):
         hi = o['items'][k]
         shown.append({'history': hi['hist'],
-                      'runs': [{'quiet': r['quiet'], 'argv': r.get('argv'), 'outcomes': r['outs'], 'raised': r['raised'],
+                      'runs': [{'quiet': r['quiet'], 'process': r.get('proc', 'same-process'), 'argv': r.get('argv'),
+                                'outcomes': r['outs'], 'raised': r['raised'],
+                                'final_cost': _script_cost(o['scripts'][r['final']]) if r['final'] is not None else None,
                                 'final_script': o['scripts'][r['final']] if r['final'] is not None else None}
                                for r in hi['runs']]})
         if len(shown) >= 3:
@@ -747,8 +1109,10 @@ def check(tier, seed):
         ok, bad_holds, bad_corr, unmodelled, stats = evaluate(run, wd, st, items)
         cli_items = gen_cli_items(tier, rng, wd)
         ok_c, bad_holds_c, bad_corr_c, _, stats_c = evaluate(run, wd, st, cli_items, tag='cli', func='impl_cli')
+        fresh_items = gen_fresh_items(tier, rng)
+        ok_f, bad_holds_f, bad_corr_f, _, stats_f = evaluate(run, wd, st, fresh_items, tag='fresh', func='impl_history_fresh')
         n_viol = 0
-        for tag, oks, bh in (('lib', ok, bad_holds), ('cli', ok_c, bad_holds_c)):
+        for tag, oks, bh in (('fresh', ok_f, bad_holds_f), ('lib', ok, bad_holds), ('cli', ok_c, bad_holds_c)):
             for i in bh:
                 if n_viol < 3:
                     it, o = oks[i]
@@ -770,8 +1134,11 @@ def check(tier, seed):
                 run.known(f"{k}: {f.get('what', '')} [stored replay a={json.dumps(rep['a'])} b={json.dumps(rep['b'])}]")
         run.cov['traces_validated_against_impl'] = (stats['histories'] - sum(len(ok[i][1]['items']) for i in unmodelled)) \
             if st['models_ok'] else 0
-        run.cov['corr_disagreements'] = len(bad_corr) + len(bad_corr_c)
-        run.cov['holds_failures_total'] = len(bad_holds) + len(bad_holds_c)
+        run.cov['corr_disagreements'] = len(bad_corr) + len(bad_corr_c) + len(bad_corr_f)
+        run.cov['holds_failures_total'] = len(bad_holds) + len(bad_holds_c) + len(bad_holds_f)
+        run.cov['fresh_process_family'] = {'pairs': len(ok_f), 'histories': stats_f['histories'], 'runs': stats_f['runs'],
+                                           'holds_failures': len(bad_holds_f), 'corr_disagreements': len(bad_corr_f),
+                                           'oracle_answers_differing': stats_f.get('oracle_unstable_pairs', 0)}
         run.cov['pairs'] = len(ok)
         run.cov['pairs_outside_model'] = len(unmodelled)
         run.cov['histories'] = stats['histories']
@@ -787,7 +1154,7 @@ def check(tier, seed):
         run.cov['cli_runs'] = stats_c['runs']
         run.cov['exhaustive'] = {'pairs': len(SMALL_PAIRS), 'max_length': 4 if tier == 'quick' else 5,
                                  'histories_per_pair': sum(6 ** k for k in range((4 if tier == 'quick' else 5) + 1))}
-        if (st['broken'] or bad_corr or bad_corr_c) and not run.violations:
+        if (st['broken'] or bad_corr or bad_corr_c or bad_corr_f) and not run.violations:
             found = False
             more = gen_items('thorough', random.Random(seed * 7919))
             more = [m for m in more if m.get('kind') != 'exhaustive'][:1200]
@@ -799,7 +1166,7 @@ def check(tier, seed):
                 if st['broken']:
                     what = st['broken']
                 else:
-                    src, i = (ok, bad_corr[0]) if bad_corr else (ok_c, bad_corr_c[0])
+                    src, i = (ok, bad_corr[0]) if bad_corr else ((ok_c, bad_corr_c[0]) if bad_corr_c else (ok_f, bad_corr_f[0]))
                     what = {'stage': 'correspondence', 'statement': 'corr_C05',
                             'first_disagreement': describe(wd, st, src[i][0], src[i][1], 'corr_C05', 'corr')}
                 run.violation({'kind': 'tie-broken', 'what': what}, no_input=True)
@@ -809,7 +1176,11 @@ def check(tier, seed):
                            'replays of repaired defects (D6, D21-D25), fixed pairs, lists of mappings with renamed long keys and changed '
                            'multi-character values plus scalar siblings under the matcher strategies (auto, match), generated list/string documents (nested lists, '
                            'near ties, equal documents, shared prefixes/suffixes) and arbitrary generated documents; a sample through '
-                           'graphtage.__main__.main with --color/--no-color x --no-status.  Every history is run on a fresh edit under '
+                           'graphtage.__main__.main with --color/--no-color x --no-status; a fresh-process family: mappings with several '
+                           'keys not matched by name and string values from a small pool of 8-character strings (equal (from, to) string '
+                           'pairs repeat across key-matched pairs and matcher edges), histories that start with edits() vs tighten_bounds() '
+                           'vs refine to the end; there the canonical drive and every history run in FRESH interpreters (one per run) and '
+                           'then once more one after another in a long-lived worker process, all judged against the fresh canonical drive.  Every history is run on a fresh edit under '
                            'quiet = True and quiet = False (all three module-level DEFAULT_PRINTER bindings), then completed with '
                            'TreeNode.diff\'s loop and serialised; the canonical drive is a fresh edit without history; the empty history always '
                            'runs under both settings, and per pair and setting the C03 views on fresh trees (sum over get_all_edits, '
@@ -819,8 +1190,17 @@ def check(tier, seed):
         run.cov['samples'] = [{'a': ok[i][0]['a'], 'b': ok[i][0]['b'], 'opts': ok[i][0]['opts'],
                                'history': ok[i][1]['items'][-1]['hist'] if ok[i][1]['items'] else None}
                               for i in range(0, len(ok), max(1, len(ok) // 5))][:6]
-        run.assumptions = ['classes outside the model (MultiSetEdit, EditCollection / FixedKeyDictNodeEdit, the matcher, search) are covered '
-                           'by holds_C05 on the implementation\'s observations only',
+        run.cov['oracle_answers_differing_between_runs_of_a_pair'] = stats.get('oracle_unstable_pairs', 0)
+        run.cov['oracle_answers_differing_first'] = stats.get('oracle_unstable_first', [])
+        run.cov['classes_modelled_without_proved_invariant'] = ['MultiSetEdit + WeightedBipartiteMatcher (AMSet)',
+                                                                'EditCollection / FixedKeyDictNodeEdit (AColl)']
+        run.assumptions = ['MultiSetEdit / WeightedBipartiteMatcher and EditCollection / FixedKeyDictNodeEdit are modelled call by call and tied '
+                           'by corr_C05 (outcomes + final script), but their class invariants are not proved: the closing theorems '
+                           '(C05_model_partial etc.) carry the hypothesis `covered` = no mapping node in the first document; search has no model',
+                           'bounds.make_distinct (number of tighten_bounds() calls per edge) and the assignment solver are oracle inputs keyed by '
+                           '(from_nodes, to_nodes), recorded per run from the implementation; a run in which one key received two answers has no '
+                           'correspondence; whether the assignment of a key is the same in every run of a pair is reported (oracle_stable_C05)',
+                           'FixedKeyDictNodeEdit: the children\'s initial upper bounds must fit cost_upper_bound (a computed guard inside initA, as for C04)',
                            'leaf text is Python str(object), supplied by the harness',
                            'numpy uint64 cost cells are modelled by Z (no wrap below 2^64); uint16 path cells wrap explicitly',
                            'a sub-edit is addressed by its position in the last listing of its parent made in the same run']
@@ -843,6 +1223,10 @@ def replay(path):
             it = dict(it)
             it['dir'] = wd.file('cli')
             r = common.run_impl('pC05', 'impl_cli', [it], nproc=1)[0]
+        elif it.get('fresh'):
+            it = dict(it)
+            it['hists'] = list(FRESH_HISTORIES) + [h for h in it.get('hists', []) if h not in FRESH_HISTORIES]
+            r = common.run_impl('pC05', 'impl_history_fresh', [it], nproc=1, timeout_item=600)[0]
         else:
             it = dict(it)
             it.setdefault('hists', [[]])
